@@ -339,3 +339,32 @@ DFU = {
     'getstatus_len': 6, 'download_wvalue': 2, 'flash_base': 0x08000000,
     'gd32_pages': {'B': 128, '8': 64, '6': 32, '4': 16}, 'gd32_page_size': 1024,
 }
+
+
+def rv32_fields(word):
+    """Generic RV32 field extraction written from the base formats (independent of the per-mnemonic table):
+    every format's immediate decoded per the ISA manual figure 2.4 (immediates produced by each base format)."""
+    def sx(v, bits):
+        return v - (1 << bits) if v & (1 << (bits - 1)) else v
+    f = {
+        'opcode': word & 0x7f, 'rd': (word >> 7) & 31, 'funct3': (word >> 12) & 7, 'rs1': (word >> 15) & 31,
+        'rs2': (word >> 20) & 31, 'funct7': (word >> 25) & 0x7f,
+        'imm_i': sx(word >> 20, 12),
+        'imm_s': sx(((word >> 25) << 5) | ((word >> 7) & 31), 12),
+        'imm_b': sx((((word >> 31) & 1) << 12) | (((word >> 7) & 1) << 11) | (((word >> 25) & 0x3f) << 5) | (((word >> 8) & 0xf) << 1), 13),
+        'imm_u': sx(word >> 12, 20),
+        'imm_j': sx((((word >> 31) & 1) << 20) | (((word >> 12) & 0xff) << 12) | (((word >> 20) & 1) << 11) | (((word >> 21) & 0x3ff) << 1), 21),
+    }
+    return f
+
+
+RV32_FORMAT = {}
+for _m in ('lui', 'auipc'):
+    RV32_FORMAT[_m] = 'U'
+RV32_FORMAT['jal'] = 'J'
+for _m in ('beq', 'bne', 'blt', 'bge', 'bltu', 'bgeu'):
+    RV32_FORMAT[_m] = 'B'
+for _m in ('sb', 'sh', 'sw'):
+    RV32_FORMAT[_m] = 'S'
+for _m in ('jalr', 'lb', 'lh', 'lw', 'lbu', 'lhu', 'addi', 'slti', 'sltiu', 'xori', 'ori', 'andi', 'csrrw', 'csrrs', 'csrrc', 'csrrwi', 'csrrsi', 'csrrci'):
+    RV32_FORMAT[_m] = 'I'
